@@ -30,6 +30,7 @@ type Drv struct {
 
 	ReaderFailAfter int // -1 none
 	ReaderCancelAt  int // -1 none
+	ReaderBlockAt   int // > 0: the reader delivers that many bytes, then blocks until the call has returned
 	WriterFailAt    int
 	WriterShort     bool
 	WriterOnce      bool
@@ -59,6 +60,9 @@ func (d *Drv) String() string {
 	}
 	if d.ReaderFailAfter >= 0 {
 		s += fmt.Sprintf(" readerFailAfter=%d", d.ReaderFailAfter)
+	}
+	if d.ReaderBlockAt > 0 {
+		s += fmt.Sprintf(" readerBlocksAfter=%d", d.ReaderBlockAt)
 	}
 	if d.ReaderCancelAt >= 0 {
 		s += fmt.Sprintf(" readerCancelAt=%d", d.ReaderCancelAt)
@@ -174,6 +178,10 @@ func (r *DrvRun) Body() {
 	rd.cancelAt = d.ReaderCancelAt
 	rd.cancel = cancel
 	rd.noYield = d.NoYield
+	if d.ReaderBlockAt > 0 && !d.Simple {
+		rd.blockAt = d.ReaderBlockAt
+		rd.release = mc.NewChan[struct{}](0)
+	}
 	mos.Reset(d.FSFailAt)
 
 	var opts []gtree.Option
@@ -273,6 +281,9 @@ func (r *DrvRun) Body() {
 		err = gtree.WalkFromRoot(root, cb, opts...)
 	default:
 		panic("unknown op " + d.Op)
+	}
+	if rd.release != nil {
+		rd.release.Close() // the call is back: the producer goes away, whoever still reads sees the end of input
 	}
 	r.Err = err
 	r.Out = w.buf.String()
